@@ -2,9 +2,10 @@
    quadratic form of the tridiagonal precision matrix (plain, weighted, time-aware); the
    integrated closed forms are the pointwise products and, given the Gamma-kernel normalisation
    of the lgamma oracle, the integrals. *)
+From Coquelicot Require Import Coquelicot.
 From Coq Require Import QArith Reals List Lra Lia Qreals Arith.
 Import ListNotations.
-From Coquelicot Require Import Coquelicot.
+Local Open Scope list_scope.
 From TT Require Import Num NumR Tree M_gmrf.
 Open Scope R_scope.
 
@@ -80,9 +81,10 @@ Proof.
   revert off; induction diag as [|d ds IH]; intros off H; [discriminate H|].
   destruct off as [|o os].
   - destruct ds; [reflexivity|discriminate H].
-  - cbn [tri_dense length]. f_equal. rewrite zipcons_length; rewrite IH; try (simpl in H; lia).
-    + reflexivity.
-    + apply unitrow_length.
+  - assert (Hos : S (length os) = length ds) by (simpl in H; lia).
+    cbn [tri_dense length]. f_equal. rewrite zipcons_length.
+    + apply IH; exact Hos.
+    + rewrite unitrow_length, IH by exact Hos. reflexivity.
 Qed.
 
 (* x'Mx of a symmetric tridiagonal matrix: sum d_i x_i^2 + 2 sum o_i x_i x_{i+1} *)
@@ -166,6 +168,8 @@ Proof.
   - f_equal. cbn [mul NumR]. lra.
   - rewrite IH. f_equal. rewrite two_R. cbn [mul add NumR]. lra.
 Qed.
+Lemma map_repeat' {A B} (f : A -> B) a k : map f (repeat a k) = repeat (f a) k.
+Proof. induction k; cbn [repeat map]; [reflexivity|]. rewrite IHk; reflexivity. Qed.
 Lemma precision_matrix_plain_is_unit_weighted tau n :
   (2 <= n)%nat ->
   precision_matrix_plain NumR tau n = precision_matrix_w NumR tau (repeat 1 (Nat.pred n)).
@@ -176,11 +180,11 @@ Proof.
   - cbn [repeat wdiag_from]. rewrite wdiag_from_ones. f_equal. cbn [mul add zero NumR]. lra.
   - unfold woff. change (S k) with (1 + k)%nat. cbn [repeat Nat.add map]. f_equal.
     + cbn [opp mul NumR]. lra.
-    + rewrite map_repeat. f_equal. cbn [opp mul NumR]. lra.
+    + rewrite map_repeat'. f_equal. cbn [opp mul NumR]. lra.
 Qed.
 
 (* ---------------------------------------------------------------- the three variants *)
-Definition variant_ok (v : variant R) (x : list R) : Prop :=
+Definition variant_ok (v : @variant R) (x : list R) : Prop :=
   match v with
   | Plain => True
   | Weighted w => (Nat.pred (length x) <= length w)%nat
